@@ -89,11 +89,13 @@ check("C12", "exploration",
       "Whole-text conformance depends on where textwrap.wrap breaks lines, which no contract within reach expresses; it is "
       "decided by a bounded run of an independent line-level conformance reader (hard-coded character sets, keyword families, "
       "line ends, indentation, alignment, end statements) over an exhaustive small universe of modules x 4 encoders x option "
-      "grids plus seeded random modules. The deductive part is limited to ground obligations fixing the dialect constants and "
-      "the non-overridable PDS3 line end/delimiter; it is reported separately and not counted as deciding the property.",
+      "grids plus seeded random modules. The deductive part - ground obligations fixing the dialect constants and the "
+      "non-overridable PDS3 line end/delimiter, and T_enc contracts on the string renderings (only symbol strings are "
+      "single-quoted: no apostrophe, no format effector, at most half the width, printable; quoting rule; first quote character "
+      "not contained) - is reported separately and not counted as deciding the property.",
       "Bounded: module universe and option grid as recorded in the evidence. Seven recorded findings (known_findings.json) are "
       "carved out by key and replayed every run.",
-      "bounded conformance reader as labelled stand-in (no contract expresses textwrap's line breaking); ground obligations on dialect constants",
+      "bounded conformance reader as labelled stand-in (no contract expresses textwrap's line breaking); ground obligations on dialect constants and SMT contracts (T_enc) on the string renderings",
       "DESIGN.md §3 C12")
 
 PARSER_NOTE = ("Trusted: pyvc encoding of the Python subset; the token-stream ghost model (arbitrary token sequence, arbitrary "
@@ -189,11 +191,13 @@ BOUNDED = {
  "C01": ("exploration", "Dump-then-strict-load round trip over an exhaustive small universe of modules (boundary value pool per kind, "
          "duplicate keys, nesting) x 4 encoders x option grid (pairwise in quick, full product in thorough) plus seeded random "
          "modules, compared with a spec function implementing exactly the five documented normalisations. The relational claim "
-         "spans encoder, lexer, parser and decoder; with the lexer unproved no contract decides it, so the level is bounded; "
-         "value-level lemmas proved by the regex/decoder back end are reported separately.", "DESIGN.md §3 C01/C02/C07"),
- "C02": ("exploration", "As C01 with the default permissive loader (pvl.loads with no arguments) reading every encoder's output.", "DESIGN.md §3 C01/C02/C07"),
+         "spans encoder, lexer, parser and decoder; with the lexer's main loop unproved no contract decides it, so the level is "
+         "bounded. Discharged alongside (not lifting the level): T_enc contracts on the writer side - needs_quotes == the "
+         "statement's quoting rule, encode_string / is_symbol renderings for every receiver class, encode_simple_value's dispatch "
+         "order - and the same contract objects evaluated at run time on the real methods.", "DESIGN.md §3 C01/C02/C07"),
+ "C02": ("exploration", "As C01 with the default permissive loader (pvl.loads with no arguments) reading every encoder's output (T_enc writer-side contracts as in C01).", "DESIGN.md §3 C01/C02/C07"),
  "C07": ("exploration", "load -> dump -> load -> dump over the corpus, a spelling catalogue, generated texts and token mutants x 4 "
-         "encoders: second load equal up to the C01 normalisations, second dump byte-identical up to set order.", "DESIGN.md §3 C01/C02/C07"),
+         "encoders: second load equal up to the C01 normalisations, second dump byte-identical up to set order (T_enc writer-side contracts as in C01).", "DESIGN.md §3 C01/C02/C07"),
  "C03": ("exploration", "Abstract documents x concrete spellings (radix/sign positions, real forms, quotes, keyword case, delimiters, "
          "end names, separators) rendered by an independent generator that keeps the abstract tree as oracle x 5 parser "
          "configurations; exhaustive for small documents over the spelling alphabet, seeded random beyond. Discharged alongside "
@@ -211,7 +215,9 @@ BOUNDED = {
  "C14": ("exploration", "Decode and encode-decode grids against an oracle built from the written fields: every day of years 0001-9999 "
          "in both date forms (thorough; boundary years in quick), every field boundary in every time form, every microsecond "
          "value for the PDS3 rule, every zone offset in 15/30-minute steps in every spelling x 5 dialect configurations; "
-         "finite grids enumerated completely are marked exhaustive. Discharged alongside: T_dec decoder contracts and regex-language "
+         "finite grids enumerated completely are marked exhaustive. Discharged alongside: T_time contracts of encode_time for the three "
+         "dialect families (written fields and precision, sign*(HH*3600+MM*60) == utcoffset, refusal exactly when the dialect cannot "
+         "represent the value; counter-models are concrete time values replayed through the real encoder and decoder), T_dec decoder contracts and regex-language "
          "obligations over the grammar's strptime format tables, leap-second patterns and the ODL offset pattern (syntax included, "
          "families disjoint, leap-second language exact, offset split unique) for all strings.", "DESIGN.md §3 C14"),
  "C17": ("exploration", "All strings up to a length bound over a PVL-significant alphabet plus curated and random longer ones x 5 "
